@@ -107,5 +107,8 @@ pub fn cli_main(all: Vec<&'static dyn Scenario>) -> ! {
         }
     };
     cleanup_worker_dirs();
+    if std::env::var_os("GIXSIM_KEEP").is_none() {
+        remove_sandbox_base();
+    }
     std::process::exit(code);
 }
